@@ -1,15 +1,63 @@
-"""Run plan of C11 (serialization) for vf.py."""
+"""Run plan of C11 (serialization: round trip, exact size, protobuf wire compat, hostile input)."""
 
 CHECK = {
     "runs": [
-        {"harness": "c11_serialize", "variant": "asan", "scale": 1.0, "args": []},
-        {"harness": "c11_serialize", "variant": "plain", "scale": 3.0, "args": []},
+        # gcc ASan+UBSan, asserts on (the wire-type check of deserialize_field is debug-only)
+        {"harness": "c11_serialize", "variant": "asan", "scale": 0.35, "scale_thorough": 0.25, "args": [],
+         "leaks": False},   # leak checking is not part of C11; babylon's thread-local singletons leak by design
+        # -O2 -DNDEBUG (the NDEBUG code path of the parser), ~10x faster: carries the volume
+        {"harness": "c11_serialize", "variant": "plain", "scale": 1.0, "args": []},
+        # clang libFuzzer, oracle inside the target. Thorough tier only until the three proposed fixes are in
+        # /repo: on the unfixed tree the fuzzer reaches the known hang (length-read failure ignored) within
+        # seconds and libFuzzer cannot continue past a crash in-process. Move to ("quick", "thorough") afterwards
+        # (quick: --runs 150000 is ~40 s).
+        {"harness": "fuzz_c11", "variant": "fuzz", "scale": 1.0, "args": [], "tiers": ("thorough",),
+         "leaks": False},
     ],
+    "parallel": 3,
     "design_ref": "DESIGN.md §5 C11",
-    "technique": "seeded value generator over a type zoo x 18 byte presentations; differential check against protobuf; "
-                 "structured-mutation hostile input; ASan/UBSan",
-    "level_text": "wip",
-    "level_note": "wip",
-    "rule": "wip",
-    "expect_counters": [],
+    "technique": "seeded value generator over a 56-root type zoo x 18 byte presentations (flat array, std::string, "
+                 "ArrayInputStream with block 1..7/4096 with and without an enclosing PushLimit); three output paths "
+                 "compared with the predicted size; differential check against protoc-generated TestMessage (the repo's "
+                 "documented compatibility table) in both directions incl. unknown kinds, absent fields, permuted "
+                 "records; structure-aware mutation of valid encodings as hostile input with a stability oracle; "
+                 "gcc ASan+UBSan / NDEBUG / clang libFuzzer; every slice in a forked child with CPU-time and RSS guards",
+    "level_text": ("Runtime monitoring of the real serializer/parser. Values with extremes (0, +-1, min, max, 2^k+-1, NaN "
+                   "payload bits, empty, lengths at the 1/2/3-byte length-prefix boundaries) are generated for every root "
+                   "type of the zoo (all scalar widths, enums, strings, vector/list/array/unordered_set/unordered_map of "
+                   "scalars, strings and aggregates, vector<bool>, unique_ptr/shared_ptr incl. null and empty pointee, "
+                   "aggregates with and without bases, total-size-cached aggregates, 6-deep nesting, protobuf messages as "
+                   "roots and members, babylon's reusable vector/string). Each value is serialized through "
+                   "serialize_to_string, serialize_to_array_with_cached_size (exact-size buffer) and a chunked coded "
+                   "stream — the three must agree and match calculate_serialized_size — and parsed back under all 18 "
+                   "presentations from an exact-size heap copy (ASan sees any over-read); half of the source objects are "
+                   "re-used from the previous value and must serialize like a fresh object. Compatibility: a struct "
+                   "mirroring TestMessage is compared field by field with protobuf's own parse of babylon's bytes and "
+                   "babylon's parse of protobuf's bytes (unknown kinds of every wire type present, fields absent at "
+                   "random, records permuted), plus an older struct reading a newer struct's bytes. Hostile input: valid "
+                   "encodings are truncated, given over-long/unterminated varints, wrong wire types, wrong/huge lengths, "
+                   "duplicated/transplanted/unknown/invalid records, random bytes and 10..10^5-deep nesting; the parser "
+                   "must return (a death, 8 s of CPU or 1.5 GB RSS in one parse is a violation) and every accepted value "
+                   "must serialize to its predicted size and parse back to itself. Held on the inputs tried, not a proof."),
+    "level_note": ("Trusted: protobuf 3.21 runtime and protoc output as the compatibility reference, the sanitizer "
+                   "runtimes, the harness' own equality/emptiness predicates. Time-outs are measured in CPU time of the "
+                   "parsing process, never wall time."),
+    "rule": ("one evaluation = one generated value taken through all output paths and all 18 presentations (round "
+             "trip), or one compat case (both directions), or one hostile input presented 3 ways (array, stream with "
+             "limit, stream without limit), or one libFuzzer execution. distinct = hash(type, bytes). non-trivial = "
+             "round trip: the encoding is empty or needs a multi-byte length prefix (>= 128 bytes); compat: every case; "
+             "hostile/fuzz: the parser ACCEPTED the mutated input (so the stability oracle actually ran). Summed over "
+             "variants."),
+    "expect_counters": ["obs:roundtrip_values", "obs:source_object_reused", "rare:empty_encoding", "rare:len_prefix_2byte",
+                        "obs:compat_b2p", "obs:compat_p2b", "obs:compat_p2b_permuted", "rare:compat_mostly_absent_fields",
+                        "obs:hostile_accepted", "obs:hostile_rejected", "obs:hostile_deep_nesting"],
+    "not_decidable": ["a parser change that only alters which malformed inputs are rejected (e.g. dropping the debug-only "
+                      "wire-type check) is not a violation of the property and is not reported",
+                      "repeated occurrences of a non-repeated field (last-wins vs. merge) are outside the property"],
+    "assumptions": ["values of `int` members standing for a protobuf enum are valid enumerators (proto2 closed enums)",
+                    "protobuf->babylon values fit the narrower C++ member type (documented in the repo's own test)",
+                    "containers of smart pointers to *scalars* with null elements are not generated (a null element has no "
+                    "encoding at all inside a packed container; outside the documented type table)",
+                    "an empty string/container member is not written, so members with non-empty defaults cannot "
+                    "round-trip an empty value (documented rule) - the zoo uses empty defaults for them"],
 }
